@@ -350,4 +350,20 @@ theorem src_in_defsrc_diverges : ∀ (fuel : Nat) (s : Layout) (c : Coord) (d : 
 
 end Layered
 
+/-- **positional_action_outside_rows_crashes** (pinned defect, repaired by bad1252 in the parser):
+`use-defsrc` and the transparent action are resolved through the position of the pressed key.
+Performed at a position beyond the layer rows - where chords v2 perform their actions - both index
+out of bounds, whatever the rest of the state is.  The parser therefore has to refuse them inside
+`defchordsv2` in every nesting (before the repair it refused only the literal `_`). -/
+theorem positional_action_outside_rows_crashes (fuel : Nat) (s : Layout) (c : Coord) (d : Nat)
+    (os : Bool) (ls : List Nat) (h : c.2 > s.cfg.cols) :
+    (∃ e, dispatch (fuel + 1) s .src c d os ls = .error (.indexOOB e)) ∧
+    (∃ e, doAction (fuel + 1) s .trans c d os ls = .error (.indexOOB e)) := by
+  refine ⟨⟨_, by simp only [dispatch]; rw [if_pos (by omega)]⟩, ?_⟩
+  cases ls <;> simp only [doAction, Layout.resolveCoord] <;> by_cases hx : c.1 > s.cfg.rows
+  · exact ⟨_, by rw [if_pos hx]⟩
+  · exact ⟨_, by rw [if_neg hx, if_pos h]⟩
+  · exact ⟨_, by rw [if_pos hx]⟩
+  · exact ⟨_, by rw [if_neg hx, if_pos h]⟩
+
 end KVerif.C02
